@@ -43,6 +43,7 @@ class Ctx:
         self.phase = 0
         self.last_by_actor = {}
         self.origin = {}
+        self.task_worker = {}
         self.counters = collections.Counter()
 
     def emit(self, kind, **extra):
@@ -426,7 +427,9 @@ def current_worker():
         task = asyncio.current_task()
     except RuntimeError:
         return None
-    return task.get_name() if task else None
+    if task is None:
+        return None
+    return CTX.task_worker.get(id(task), task.get_name())
 
 
 def plan_for(cls, name, worker_id, try_index, timeout=100.0):
@@ -503,7 +506,7 @@ async def sim_run_test_task(self, node):
              planned=status, duration=duration, try_index=try_index, placeholder=placeholder,
              has_objects=len(node.objects) > 0, is_clone_source=len(node.cloned_nodes) > 0,
              extra={key: params.get(key) for key in CTX.case.get("watch_params", [])})
-    missing = [r for r in requirements if not r["found"]]
+    missing = [] if CTX.case.get("ignore_requirements") else [r for r in requirements if not r["found"]]
     previous, CTX.worker = CTX.worker, worker_id
     try:
         if missing:
@@ -599,6 +602,7 @@ def install_seams():
         original_reverse = graph_module.TestGraph.reverse_node
 
         async def traverse_node(self, test_node, worker, params):
+            CTX.task_worker[id(asyncio.current_task())] = worker.id
             CTX.origin[worker.id] = ("traverse", test_node.params["name"])
             try:
                 await original_traverse(self, test_node, worker, params)
@@ -606,6 +610,7 @@ def install_seams():
                 CTX.origin.pop(worker.id, None)
 
         async def reverse_node(self, test_node, worker, params):
+            CTX.task_worker[id(asyncio.current_task())] = worker.id
             CTX.origin[worker.id] = ("reverse", test_node.params["name"])
             CTX.counters["reverse_calls"] += 1
             try:
